@@ -101,6 +101,13 @@ class Interp:
 
     # -- steps
     def apply(self, step):
+        from harness import core as _core
+        if _core.STALLED[0] is not None:
+            raise _core.STALLED[0]
+        with _core.cpu_guard({"config": getattr(self, "cfg", None) or getattr(self, "config", None), "steps": self.steps}, "step"):
+            self._apply(step)
+
+    def _apply(self, step):
         self.steps.append(step)
         op = step[0]
         before_out = len(self.out) + len(self.hs_out)
